@@ -119,6 +119,17 @@ CHECKS = {
         "Block lists are read back with the crate's own reader (its fidelity is C11); first-frame offsets and frame bytes come from the independent parser.",
         "DESIGN.md section 4 C10",
     ),
+    "C20": (
+        "proptest over a cue-sheet grammar generator, oracle = the abstract layout the text was rendered from",
+        "exploration",
+        "Well-formed cue texts (1-99 tracks, optional pre-gap, up to 99 indices, minutes far above 99, optional quoted/unquoted "
+        "CATALOG and ISRC with or without dashes, FLAGS PRE or another single flag, noise lines, arbitrary surrounding blanks/tabs, "
+        "LF/CRLF) are imported for a stream of whole CD sectors; track numbers, index numbers, absolute positions, pre-emphasis, "
+        "ISRC, catalog, lead-out and track ranges must equal the generator's model, and display() followed by parse() must "
+        "reproduce the track/index layout.",
+        "Multi-blank separators and multi-flag FLAGS lines are outside the generated domain (no cited specification settles them).",
+        "DESIGN.md section 4 C20",
+    ),
 }
 
 NOT_YET = {}
